@@ -56,6 +56,8 @@ func (a Act) IsBuild() bool {
 	switch a.A {
 	case "Nest", "LongChain", "HugeLiteral", "HugeArray", "SelfReference":
 		return true
+	case "HostileConstExpr":
+		return a.Ctx != "subst"
 	}
 	return false
 }
@@ -73,6 +75,15 @@ func (a Act) Param() string {
 		return fmt.Sprintf("type=%s,ctx=%s", strings.Join(a.Core, ""), a.Ctx)
 	case "SelfReference":
 		return "c=" + a.C
+	case "HostileConstExpr":
+		e := strings.Join(a.Core, " ")
+		if len(a.Pre) > 0 && len(a.Pre) <= 10 && a.Pre[0] == "const" {
+			e = strings.Join(a.Pre, " ") + " " + e
+		}
+		if len(e) > 150 {
+			e = e[:150]
+		}
+		return fmt.Sprintf("c=%s,ctx=%s,e=%s", a.C, a.Ctx, e)
 	case "ReplaceToken", "InsertToken", "RawBytes", "RawFill":
 		return "t=" + a.T
 	}
@@ -309,40 +320,80 @@ func Apply(seed []Elem, script []Act, x *Expander) ([]Elem, error) {
 			doc[a.I-1] = Elem{T: t[:keep], Glue: doc[a.I-1].Glue}
 		case "RawFill":
 			doc = []Elem{{T: x.Expand(a.T, 0, 0, n1)}}
+		case "HostileConstExpr":
+			if a.Ctx != "subst" {
+				doc = applyBuild(doc, a, x, n1)
+				break
+			}
+			// substitution for a numeric literal of the seed: element i becomes the expression, declarations go in front
+			if a.I < 1 || a.I > L || !IsNumber(doc[a.I-1].T) {
+				return nil, bad()
+			}
+			nd := make([]Elem, 0, L+len(a.Core)+len(a.Pre))
+			for _, t := range a.Pre {
+				nd = append(nd, Elem{T: x.Expand(t, 0, 0, n1)})
+			}
+			nd = append(nd, doc[:a.I-1]...)
+			for _, t := range a.Core {
+				nd = append(nd, Elem{T: x.Expand(t, 0, 0, n1)})
+			}
+			doc = append(nd, doc[a.I:]...)
 		default:
 			if !a.IsBuild() {
 				return nil, fmt.Errorf("unknown action %q", a.A)
 			}
-			g := make([]Elem, 0, len(a.Pre)+a.K*(len(a.Open)+len(a.Close))+len(a.Core)+len(a.Post))
-			for _, t := range a.Pre {
-				g = append(g, Elem{T: x.Expand(t, 0, a.K, n1)})
-			}
-			for i := 1; i <= a.K; i++ {
-				for _, t := range a.Open {
-					g = append(g, Elem{T: x.Expand(t, i, a.K, n1)})
-				}
-			}
-			for _, t := range a.Core {
-				g = append(g, Elem{T: x.Expand(t, a.K, a.K, n1)})
-			}
-			if a.Closed == 1 {
-				for i := a.K; i >= 1; i-- {
-					for _, t := range a.Close {
-						g = append(g, Elem{T: x.Expand(t, i, a.K, n1)})
-					}
-				}
-			}
-			for _, t := range a.Post {
-				g = append(g, Elem{T: x.Expand(t, 0, a.K, n1)})
-			}
-			if a.At == "start" {
-				doc = append(g, doc...)
-			} else {
-				doc = append(doc, g...)
-			}
+			doc = applyBuild(doc, a, x, n1)
 		}
 	}
 	return doc, nil
+}
+
+// applyBuild appends / prepends the group  pre open^k core close^k post  of a Build action.
+func applyBuild(doc []Elem, a Act, x *Expander, n1 int) []Elem {
+	g := make([]Elem, 0, len(a.Pre)+a.K*(len(a.Open)+len(a.Close))+len(a.Core)+len(a.Post))
+	for _, t := range a.Pre {
+		g = append(g, Elem{T: x.Expand(t, 0, a.K, n1)})
+	}
+	for i := 1; i <= a.K; i++ {
+		for _, t := range a.Open {
+			g = append(g, Elem{T: x.Expand(t, i, a.K, n1)})
+		}
+	}
+	for _, t := range a.Core {
+		g = append(g, Elem{T: x.Expand(t, a.K, a.K, n1)})
+	}
+	if a.Closed == 1 {
+		for i := a.K; i >= 1; i-- {
+			for _, t := range a.Close {
+				g = append(g, Elem{T: x.Expand(t, i, a.K, n1)})
+			}
+		}
+	}
+	for _, t := range a.Post {
+		g = append(g, Elem{T: x.Expand(t, 0, a.K, n1)})
+	}
+	if a.At == "start" {
+		doc = append(g, doc...)
+	} else {
+		doc = append(doc, g...)
+	}
+	return doc
+}
+
+var reNumber = regexp.MustCompile(`^(0[xX][0-9a-fA-F]+[iu]?|[0-9]+[iu]?|[0-9]*\.?[0-9]+([eE][-+]?[0-9]+)?[fh]?|[0-9]+\.[fh]?)$`)
+
+// IsNumber reports whether an element is a numeric literal (a site where HostileConstExpr may substitute an expression).
+func IsNumber(t string) bool { return reNumber.MatchString(t) }
+
+// NumberPositions lists the 1-based positions of the numeric literal elements of a document.
+func NumberPositions(es []Elem) []int {
+	var out []int
+	for i, e := range es {
+		if IsNumber(e.T) {
+			out = append(out, i+1)
+		}
+	}
+	return out
 }
 
 // Classes returns the distinct action classes of a script in order of first use.
